@@ -74,7 +74,10 @@ class ModuleVisitor(extensions.ModuleVisitorExt):
         except KeyError:
             # Inner functions are ignored.
             return
-        assert isinstance(func, (model.Function, model.Attribute))
+        if not isinstance(func, (model.Function, model.Attribute)):
+            # The name is bound to something else in this scope, for instance a class of the same name defined earlier
+            # when the function was not documented (as for a '@x.setter' where x is not a property).
+            return
         getDeprecated(func, node.decorator_list)
 
 _incremental_Version_signature = inspect.signature(Version)
